@@ -49,6 +49,23 @@ Proof. apply obs_of_rel. Qed.
 Lemma rel_singleton {A} {RA : Rel A} r (a b : A) : rel r a b -> rel r [a] [b].
 Proof. intros. constructor; [assumption|constructor]. Qed.
 
+(* ---- the pure string layer: its arguments are observations (address-free), its results address-free data ---------- *)
+#[export] Instance Rel_obsl : Rel obsl := fun _ a b => a = b.
+#[export] Instance Mono_obsl : RelMono obsl. Proof. intros r r' a b _ H. exact H. Qed.
+Lemma obs_list_rel r (vs1 vs2 : list value) : rel r vs1 vs2 -> mrel0 r (obs_list vs1) (obs_list vs2).
+Proof.
+  intros H s1 s2 Hs. unfold obs_list, bind, get_state, ret. split; [exact Hs|].
+  change (map (obs_of depth s1) vs1 = map (obs_of depth s2) vs2).
+  induction H as [|x y l1 l2 Hx _ IH]; cbn [map]; [reflexivity|].
+  rewrite IH. rewrite (obs_of_eq r s1 s2 depth x y Hs Hx). reflexivity.
+Qed.
+Lemma rel_map_VStr r (l : list string) : rel r (map VStr l) (map VStr l).
+Proof. induction l as [|x t IH]; cbn [map]; constructor; [constructor|exact IH]. Qed.
+Lemma rel_snd_named r (l1 l2 : list (string * value)) : rel r l1 l2 -> rel r (map snd l1) (map snd l2).
+Proof. intros H. induction H as [|x y t1 t2 [_ Hx] _ IH]; cbn [map]; constructor; assumption. Qed.
+Lemma fst_named_eq r (l1 l2 : list (string * value)) : rel r l1 l2 -> map fst l1 = map fst l2.
+Proof. intros H. induction H as [|x y t1 t2 [Hx _] _ IH]; cbn [map]; [reflexivity|]. hnf in Hx. rewrite Hx, IH. reflexivity. Qed.
+
 Create HintDb rdb.
 #[export] Hint Resolve rv_none rv_bool rv_int rv_str rv_tuple rv_list rv_dict rv_range rv_clo rv_builtin rel_tt
   rel_bool_eq rel_Z_eq rel_string_eq rel_some rel_none rel_named_cons rel_creturn rel_cnormal rel_cbreak rel_ccontinue
@@ -79,6 +96,7 @@ Ltac norm_eq :=
     | H : @rel Z _ _ _ _ |- _ => hnf in H; subst
     | H : @rel string _ _ _ _ |- _ => hnf in H; subst
     | H : @rel comparison _ _ _ _ |- _ => hnf in H; subst
+    | H : @rel obsl _ _ _ _ |- _ => hnf in H; subst
     | H : @rel unit _ _ _ _ |- _ => clear H
     | H : @rel (option Z) _ _ _ _ |- _ => apply rel_optZ_eq in H; subst
     end.
@@ -137,8 +155,16 @@ Proof.
 Qed.
 Lemma str_of_rel r v1 v2 : rel r v1 v2 -> mrel0 r (str_of v1) (str_of v2).
 Proof.
-  intros H. inversion H; subst; cbn [str_of]; try apply mrel0_fail; try (apply mrel0_ret; reflexivity).
-  destruct b; apply mrel0_ret; reflexivity.
+  intros H. unfold str_of. eapply mrel0_bind; [apply obs_list_rel; apply rel_singleton; exact H|].
+  intros os1 os2 Ho. hnf in Ho. subst os2.
+  destruct (str_obs (hd ONone os1)); [apply mrel0_ret; reflexivity|apply mrel0_fail].
+Qed.
+Lemma lift_sres_rel r x : mrel r (lift_sres x) (lift_sres x).
+Proof.
+  destruct x as [e|[x|z|b| |l|l]]; cbn [lift_sres]; try apply mrel_fail;
+    try (apply mrel_ret; constructor; fail).
+  - apply mrel_ret. constructor. apply rel_map_VStr.
+  - apply alloc_list_rel. apply rel_map_VStr.
 Qed.
 Lemma veqM_rel r a1 a2 b1 b2 : rel r a1 a2 -> rel r b1 b2 -> mrel0 r (veqM a1 b1) (veqM a2 b2).
 Proof.
@@ -185,6 +211,8 @@ Ltac pstep :=
   | |- mrel0 _ (as_int _) (as_int _) => apply as_int_rel; solve_rel
   | |- mrel0 _ (opt_int _) (opt_int _) => apply opt_int_rel; solve_rel
   | |- mrel0 _ (str_of _) (str_of _) => apply str_of_rel; solve_rel
+  | |- mrel0 _ (obs_list _) (obs_list _) => apply obs_list_rel; solve_rel
+  | |- mrel _ (lift_sres ?x) (lift_sres ?x) => apply lift_sres_rel
   | |- mrel0 _ (veqM _ _) (veqM _ _) => apply veqM_rel; solve_rel
   | |- mrel0 _ (iter_elems _) (iter_elems _) => apply iter_elems_rel; solve_rel
   | |- mrel0 _ (mapM _ _) (mapM _ _) => apply mapM0_rel; [solve_rel|intros ? ? ?]
@@ -233,6 +261,8 @@ Lemma call_method_rel r m recv1 recv2 (args1 args2 : list value) :
   rel r recv1 recv2 -> rel r args1 args2 -> mrel r (call_method recv1 m args1) (call_method recv2 m args2).
 Proof.
   intros Hr Ha. unfold call_method. pstep2; try apply mrel_fail.
+  - (* a string receiver: the pure string layer *)
+    match goal with |- mrel _ (if ?c then _ else _) _ => destruct c end; repeat pstep2.
   - pstep2; [pstep2|].
     repeat match goal with
            | |- mrel _ (if ?c then _ else _) _ => lazymatch type of c with bool => destruct c end
@@ -243,4 +273,17 @@ Proof.
            | |- mrel _ (if ?c then _ else _) _ => lazymatch type of c with bool => destruct c end
            end; try apply mrel_fail.
     all: repeat pstep2.
+Qed.
+
+Lemma call_method_kw_rel r m recv1 recv2 (args1 args2 : list value) (kw1 kw2 : list (string * value)) :
+  rel r recv1 recv2 -> rel r args1 args2 -> rel r kw1 kw2 ->
+  mrel r (call_method_kw recv1 m args1 kw1) (call_method_kw recv2 m args2 kw2).
+Proof.
+  intros Hr Ha Hk. unfold call_method_kw.
+  inversion Hk as [|p1 p2 t1 t2 Hp Ht]; subst; [apply call_method_rel; assumption|].
+  rewrite (fst_named_eq r _ _ Hk). pose proof (rel_snd_named r _ _ Hk) as Hs.
+  inversion Hr; subst; try apply mrel_fail.
+  eapply mrel_bind0; [apply obs_list_rel; assumption|]. intros os1 os2 Ho. hnf in Ho. subst os2.
+  eapply mrel_bind0; [apply obs_list_rel; exact Hs|]. intros ks1 ks2 Hko. hnf in Hko. subst ks2.
+  apply lift_sres_rel.
 Qed.
